@@ -4,7 +4,7 @@
   modular arithmetic of `scan_orfs`.
 
   `IsOrf w s e`: the stretch `w[s .. e+3)`:
-     * begins with a start codon at `s`, ends with the stop codon at `e` (inclusive), `s` and
+     * begins with a start codon (ATG/GTG/TTG — fixed here, not read from the code) at `s`, ends with the stop codon at `e` (inclusive), `s` and
        `e` in the same frame, the stop codon complete inside the window;
      * contains no other in-frame stop;
      * `s` is the first start codon after the previous in-frame stop (or the frame's beginning):
@@ -14,8 +14,15 @@ import ASV.Model.Orf
 namespace ASV.Orf
 open ASV
 
-def StartAt (w : Seq) (p : Nat) : Prop := isStart (codonAt w p) = true
-def StopAt (w : Seq) (p : Nat) : Prop := isStop (codonAt w p) = true
+/-- the start codons the property names: ATG / GTG / TTG -/
+def docStartCodons : List Seq := [['A', 'T', 'G'], ['G', 'T', 'G'], ['T', 'T', 'G']]
+/-- the stop codons of the standard and bacterial tables: TAA / TAG / TGA -/
+def docStopCodons : List Seq := [['T', 'A', 'A'], ['T', 'A', 'G'], ['T', 'G', 'A']]
+def isStartDoc (c : Seq) : Bool := docStartCodons.contains c
+def isStopDoc (c : Seq) : Bool := docStopCodons.contains c
+
+def StartAt (w : Seq) (p : Nat) : Prop := isStartDoc (codonAt w p) = true
+def StopAt (w : Seq) (p : Nat) : Prop := isStopDoc (codonAt w p) = true
 
 instance (w : Seq) (p : Nat) : Decidable (StartAt w p) := by unfold StartAt; infer_instance
 instance (w : Seq) (p : Nat) : Decidable (StopAt w p) := by unfold StopAt; infer_instance
@@ -35,15 +42,15 @@ def orfLen (s e : Nat) : Int := (e : Int) + 3 - (s : Int)
 /-- executable form of `IsOrf` (theorem `isOrfB_iff`) -/
 def isOrfB (w : Seq) (s e : Nat) : Bool :=
   s % 3 == e % 3 && decide (s < e) && decide (e + 3 ≤ w.length)
-  && isStart (codonAt w s) && isStop (codonAt w e)
-  && (List.range e).all (fun q => !(decide (s < q) && q % 3 == s % 3 && isStop (codonAt w q)))
-  && (List.range s).all (fun p => !(p % 3 == s % 3 && isStart (codonAt w p))
-        || (List.range s).any (fun q => decide (p < q) && q % 3 == s % 3 && isStop (codonAt w q)))
+  && isStartDoc (codonAt w s) && isStopDoc (codonAt w e)
+  && (List.range e).all (fun q => !(decide (s < q) && q % 3 == s % 3 && isStopDoc (codonAt w q)))
+  && (List.range s).all (fun p => !(p % 3 == s % 3 && isStartDoc (codonAt w p))
+        || (List.range s).any (fun q => decide (p < q) && q % 3 == s % 3 && isStopDoc (codonAt w q)))
 
 /-- all ORFs of a window, by brute force over (start codon position, stop codon position) -/
 def specOrfs (w : Seq) : List (Nat × Nat) :=
-  let starts := (List.range w.length).filter fun p => isStart (codonAt w p)
-  let stops := (List.range w.length).filter fun p => isStop (codonAt w p)
+  let starts := (List.range w.length).filter fun p => isStartDoc (codonAt w p)
+  let stops := (List.range w.length).filter fun p => isStopDoc (codonAt w p)
   starts.flatMap fun s => (stops.filter fun e => isOrfB w s e).map fun e => (s, e)
 
 /-! ### where an ORF lies on the record -/
